@@ -131,26 +131,41 @@ Proof.
   apply Nat.leb_le in A. auto.
 Qed.
 
-(* the real acceptance check implies its specification ... *)
-Theorem is_satisfied_implies_spec d native c :
-  is_satisfied d native c = true -> spec_satisfied d native c = true.
+(* the real acceptance check and its specification coincide *)
+Lemma connectivity_agree d c : assert_connectivity d c = spec_connectivity d c.
 Proof.
-  unfold is_satisfied, spec_satisfied. intro H.
-  apply andb_prop in H. destruct H as [H H3]. apply andb_prop in H. destruct H as [H1 H2].
-  rewrite H1, H3, andb_true_r. cbn.
-  unfold assert_connectivity in H2. unfold spec_connectivity.
-  rewrite forallb_forall in *. intros g Hg. specialize (H2 g Hg).
-  destruct (is_meas g) eqn:Em; [reflexivity|]. cbn. unfold nq in H2.
-  destruct (gqs g) as [|a [|b [|z r]]]; cbn in *; auto; try discriminate.
+  unfold assert_connectivity, spec_connectivity.
+  induction (cgates c) as [|g gs IH]; [reflexivity|]. cbn [forallb]. rewrite IH. f_equal. clear IH.
+  unfold nq. destruct (is_meas g); cbn.
+  - rewrite andb_false_r. cbn. rewrite andb_false_r. reflexivity.
+  - rewrite !andb_true_r. destruct (gqs g) as [|a [|b [|z r]]]; reflexivity.
 Qed.
 
-(* ... but not conversely: a measurement on exactly two qubits is (wrongly) required to sit on
-   an edge.  The circuit below is a correct output for the line 0-1-2. *)
-Theorem is_satisfied_meas2_refuted_witness :
+Theorem is_satisfied_implies_spec d native c :
+  is_satisfied d native c = true -> spec_satisfied d native c = true.
+Proof. unfold is_satisfied, spec_satisfied. rewrite connectivity_agree. auto. Qed.
+
+Theorem spec_implies_is_satisfied d native c :
+  spec_satisfied d native c = true -> is_satisfied d native c = true.
+Proof. unfold is_satisfied, spec_satisfied. rewrite connectivity_agree. auto. Qed.
+
+(* HISTORICAL (before the repair of qibo): assert_connectivity treated a measurement on exactly two
+   qubits like a two-qubit gate and rejected this correct output for the line 0-1-2 *)
+Definition assert_connectivity_before_repair (d : device) (c : circ) : bool :=
+  forallb (fun g =>
+    if (2 <? nq g) && negb (is_meas g) then false
+    else if nq g =? 2
+         then match gqs g with
+              | [a; b] => has_edge (dedges d) (nth a (cwires c) 0) (nth b (cwires c) 0)
+              | _ => false
+              end
+         else true) (cgates c).
+Lemma historical_meas2_witness :
   let d := mkD [0;1;2] [(0,1);(1,2)] in
   let c := mkC [0;1;2] [mkG KU 1 [0;1]; mkG KM 2 [0;2]] in
-  spec_satisfied d (fun _ => true) c = true /\ is_satisfied d (fun _ => true) c = false.
-Proof. split; reflexivity. Qed.
+  spec_satisfied d (fun _ => true) c = true /\ assert_connectivity_before_repair d c = false /\
+  is_satisfied d (fun _ => true) c = true.
+Proof. repeat split; reflexivity. Qed.
 
 (* ------------------------------------------------------------------ runs of passes *)
 Lemma run_passes_app d native a b st :
